@@ -790,13 +790,12 @@ def lattices(quick):
     if quick:
         rep = [dn(2, 1, all2, "{1,5}"), dn(3, 1, all3, "{5,6}"), dn(4, 1, all4, "{7}"),
                dn(2, 2, "{1,2,5}", "{1,5}"), dn(3, 2, "{1,5,6}", "{6}"), dn(4, 2, "{1,7}", "{7}"),
-               dn(2, 3, "{1,2,5}", "{5}"), dn(2, 4, "{1,5}"), dn(3, 3, "{5,6}"),
+               dn(2, 3, "{1,5}", "{5}"), dn(2, 4, "{1,5}"), dn(3, 3, "{5,6}"),
                dn(4, 3, "{7}", ords=one), dn(3, 4, "{6}", ords=one), dn(4, 4, "{7}", ords=one)]
         full = [dn(2, 1), dn(2, 2), dn(3, 1), dn(4, 1), dn(2, 3), dn(3, 2), dn(4, 2), dn(2, 4)]
-        lean = [dn(3, 3, lean=True), dn(4, 3, lean=True, ords=one), dn(3, 4, lean=True, ords=one),
-                dn(4, 4, lean=True, ords=one)]
+        lean = [dn(3, 3, lean=True), dn(4, 3, lean=True, ords=one), dn(3, 4, lean=True, ords=one)]
         return {"rep": rep, "alg": full + lean, "act": full + lean, "obs": full + lean,
-                "maxlaw": 16, "maxrep": 81, "maxprod": 27}
+                "maxlaw": 16, "maxrep": 81, "maxprod": 27}      # 256-dim systems: "rep" only (thorough: all)
     three = '{"id", "rot", "rev"}'
     rep = [dn(2, 1, all2, all2, ords=three), dn(3, 1, all3, all3, ords=three),
            dn(4, 1, all4 + " \\cup {2, 8}", all4, ords=three),
